@@ -39,6 +39,8 @@ pub struct ReplicaProp {
     mon: Monitor,
     /// the last justification the replica handed to its proposer (abstract)
     last_notify: Option<Value>,
+    /// real leader of the first LEADER_TABLE views of the current case
+    leader_table: Vec<usize>,
 }
 
 #[derive(Default)]
@@ -53,6 +55,10 @@ pub struct Monitor {
     max_timeout_qcs: usize,
 }
 
+/// number of views for which the real leader is tabulated for the model (cases stay far below it, except floods, which
+/// do not depend on the leader)
+const LEADER_TABLE: u64 = 512;
+
 fn sel() -> validator::LeaderSelection {
     validator::LeaderSelection { frequency: 1, mode: validator::LeaderSelectionMode::RoundRobin }
 }
@@ -66,6 +72,7 @@ impl ReplicaProp {
             s: None,
             mon: Monitor::default(),
             last_notify: None,
+            leader_table: vec![],
         }
     }
 
@@ -87,13 +94,30 @@ impl ReplicaProp {
             let weights: Vec<u64> = serde_json::from_value(op["weights"].clone()).unwrap();
             let first = op["first"].as_u64().unwrap_or(0);
             let me = op["me"].as_u64().unwrap_or(0) as usize;
-            let w = World::new(op["wseed"].as_u64().unwrap_or(0), &weights, &vec![true; weights.len()], sel(), first);
+            // leader schedule of the case: eligible leaders, rotation frequency, round-robin or weighted. The model takes the
+            // leader of a view as a function (leader election itself is property C11): the table of the real
+            // `Schedule::view_leader` for the first LEADER_TABLE views travels with the op.
+            let leaders: Vec<bool> = op.get("leaders").and_then(|l| serde_json::from_value(l.clone()).ok()).unwrap_or_else(|| vec![true; weights.len()]);
+            let sel_ = match op.get("freq").and_then(|f| f.as_u64()) {
+                Some(f) => validator::LeaderSelection {
+                    frequency: f,
+                    mode: if op["mode"] == "weighted" { validator::LeaderSelectionMode::Weighted } else { validator::LeaderSelectionMode::RoundRobin },
+                },
+                None => sel(),
+            };
+            let w = World::new(op["wseed"].as_u64().unwrap_or(0), &weights, &leaders, sel_, first);
+            let table: Vec<usize> = (0..LEADER_TABLE).map(|v| w.schedule.index(&w.schedule.view_leader(validator::ViewNumber(v))).unwrap()).collect();
             let rig = self.rt.block_on(Rig::new(&w, me));
             self.s = Some(Session { w, rig, weights });
             self.mon = Monitor::default();
             let s = self.s.as_mut().unwrap();
             let snap = sum_snapshot(&mut s.w, &s.rig.snapshot());
-            return (op.clone(), json!({"class":"init","snap":snap}));
+            let mut op = op.clone();
+            if op.get("freq").is_some() {
+                op["leader_table"] = json!(table);
+            }
+            self.leader_table = table;
+            return (op, json!({"class":"init","snap":snap}));
         }
         let mut op = op.clone();
         let mut env = self.env();
@@ -404,6 +428,7 @@ pub fn check_equivocation(hist: &[validator::Signed<validator::ConsensusMsg>], o
 // ------------------------------------------------------------------------------------------------ generation
 
 struct Gen<'a> {
+    leader_table: &'a [usize],
     certified: &'a mut std::collections::HashMap<u64, (u64, u64)>,
     rng: &'a mut StdRng,
     n: usize,
@@ -413,7 +438,7 @@ struct Gen<'a> {
 
 impl Gen<'_> {
     fn leader(&self, view: u64) -> usize {
-        (view % self.n as u64) as usize
+        self.leader_table.get(view as usize).copied().unwrap_or((view % self.n as u64) as usize)
     }
     fn quorum_set(&mut self) -> Vec<usize> {
         let mut order: Vec<usize> = (0..self.n).collect();
@@ -532,7 +557,17 @@ impl ReplicaProp {
             let n = weights.len();
             let me = rng.gen_range(0..n);
             let first = if rng.gen_bool(0.7) { 0 } else { rng.gen_range(1..4) };
-            let init = json!({"op":"init","reset":true,"weights":weights,"first":first,"wseed":rng.gen_range(0..100000u64),"me":me,"max_payload":MAX_PAYLOAD});
+            let mut init = json!({"op":"init","reset":true,"weights":weights,"first":first,"wseed":rng.gen_range(0..100000u64),"me":me,"max_payload":MAX_PAYLOAD});
+            // every other case: a leader schedule other than "everybody, round-robin, every view"
+            if case % 2 == 1 && self.mode != Mode::Flood {
+                let mut leaders: Vec<bool> = (0..n).map(|_| rng.gen_bool(0.6)).collect();
+                if !leaders.iter().any(|l| *l) {
+                    leaders[rng.gen_range(0..n)] = true;
+                }
+                init["leaders"] = json!(leaders);
+                init["freq"] = json!(*[1u64, 2, 3, 5, 0].choose(&mut rng).unwrap());
+                init["mode"] = json!(if rng.gen_bool(0.5) { "weighted" } else { "rr" });
+            }
             let (op, obs) = self.exec_full(&init, out);
             out.emit(op, obs);
             self.last_notify = None;
@@ -550,7 +585,8 @@ impl ReplicaProp {
                 let snap = self.s.as_ref().unwrap().rig.snapshot();
                 let cur = snap.view.0;
                 let base_n = snap.high_commit_qc.as_ref().map_or(first, |q| q.header().number.0 + 1);
-                let mut g = Gen { certified: &mut certified, rng: &mut rng, n, weights: weights.clone(), me };
+                let table = self.leader_table.clone();
+                let mut g = Gen { leader_table: &table, certified: &mut certified, rng: &mut rng, n, weights: weights.clone(), me };
                 let roll = g.rng.gen_range(0..100);
                 let crash = if self.mode == Mode::Crash && g.rng.gen_bool(0.35) {
                     json!({"at": g.rng.gen_range(0..2), "applied": g.rng.gen_bool(0.5)})
@@ -650,6 +686,36 @@ impl ReplicaProp {
                                 p2["sig_ok"] = json!(true);
                                 if rng.gen_bool(0.8) { pending.push_back(json!({"op":"restart"})); }
                                 pending.push_back(p2);
+                            }
+                        }
+                    }
+                }
+                // finalisation path (process_commit_qc -> save_block -> hand-over to the store): when the replica has just
+                // voted for a block whose payload it holds, half of the time the commit certificate for exactly that vote
+                // arrives next — in a new-view of the following view, or in the next leader's proposal
+                if self.mode != Mode::Flood {
+                    let voted: Option<(u64, u64, u64)> = obs["effects"].as_array().and_then(|effs| {
+                        effs.iter().find_map(|e| {
+                            let cv = e.get("send")?.get("commit")?;
+                            Some((cv["view"]["v"].as_u64()?, cv["n"].as_u64()?, cv["h"].as_u64()?))
+                        })
+                    });
+                    if let Some((v, bn, h)) = voted {
+                        if rng.gen_bool(0.5) {
+                            let table = self.leader_table.clone();
+                            let mut g = Gen { leader_table: &table, certified: &mut certified, rng: &mut rng, n, weights: weights.clone(), me };
+                            let q = g.valid_cqc(v, bn, h);
+                            if q.vote.n == bn && q.vote.h == h {
+                                let from = g.rng.gen_range(0..n);
+                                out.count("followup=commit_qc_for_own_vote");
+                                if g.rng.gen_bool(0.6) {
+                                    pending.push_back(json!({"op":"msg","from":from,"sig_ok":true,"msg":{"newview":AJust::Commit(q)}}));
+                                } else {
+                                    fresh += 2;
+                                    if !payload_ok(fresh) { fresh += 1; }
+                                    let leader = g.leader(v + 1);
+                                    pending.push_back(json!({"op":"msg","from":leader,"sig_ok":true,"msg":{"proposal":{"just":AJust::Commit(q),"payload":fresh}}}));
+                                }
                             }
                         }
                     }
